@@ -3,29 +3,30 @@ CONSTANTS
   Maturity = 3
   Slates = {"s1"}
   Amounts = {1000}
-  NFund = 2
+  NFund = 1
   MaxH = 6
-  MaxLog = 2
+  MaxLog = 1
   UseLate = FALSE
   UseTtl = FALSE
-  UseInvoice = TRUE
+  UseInvoice = FALSE
   UseAccounts = TRUE
   UseMineTo = TRUE
   UseCancelBySlate = FALSE
   MaxAdv = 1
   MaxFork = 0
-  UseScan = FALSE
-  UseDiverge = FALSE
+  UseScan = TRUE
+  UseDiverge = TRUE
   UseAdv = FALSE
 SPECIFICATION Spec
 INVARIANT TypeOK
-INVARIANT Inv_Exclusive
-PROPERTY Prop_Replay
-PROPERTY Prop_SelectAvoidsReserved
 PROPERTY Prop_Cancel
 PROPERTY Prop_Foreign
 PROPERTY Prop_Paths
 PROPERTY Prop_Ttl
+PROPERTY Prop_Books
+PROPERTY Prop_Isolation
+PROPERTY Prop_Scan
+PROPERTY Prop_RevertedRestored
 PROPERTY EmitEdges
 CONSTRAINT Bound
 VIEW View
